@@ -26,6 +26,10 @@ def neg(s):
         return ("np", s[1])
     if isinstance(s, tuple) and s[0] == "np":
         return ("p", s[1])
+    if isinstance(s, tuple) and s[0] == "eq":
+        return ("ne",) + s[1:]
+    if isinstance(s, tuple) and s[0] == "ne":
+        return ("eq",) + s[1:]
     return "?"
 
 
@@ -39,6 +43,11 @@ def subst(s, env):
             if v is None:
                 return s
             return neg(v)
+        if s[0] in ("eq", "ne"):
+            v = env.get(s[1])
+            if isinstance(v, tuple) and v[0] == "variant":
+                return (v[1] == s[2]) == (s[0] == "eq")
+            return s
         if s[0] == "Some":
             return ("Some", subst(s[1], env))
         if s[0] == "t":
@@ -64,13 +73,16 @@ def project(s, fields):
 _ret_cache = {}
 
 
-def return_shapes(prog, fn, stack=()):
-    key = fn.id
+def return_shapes(prog, fn, stack=(), penv=None):
+    """shapes of the return value; `penv` {parameter: True | False | ('variant', name)} fixes parameters the caller passes as
+    constants: the paths they rule out (branches on them) do not contribute"""
+    penv = {k: v for k, v in (penv or {}).items() if v is True or v is False or (isinstance(v, tuple) and v[0] == "variant")}
+    key = (fn.id, tuple(sorted(penv.items(), key=str)))
     if key in _ret_cache:
         return _ret_cache[key]
-    if key in stack or len(stack) > 8:
+    if fn.id in stack or len(stack) > 8:
         return {"?"}
-    res = shapes_of(prog, fn, {"c": {"l": 0, "p": []}}, None, stack + (key,))
+    res = shapes_of(prog, fn, {"c": {"l": 0, "p": []}}, None, stack + (fn.id,), 0, penv)
     if len(stack) == 0:
         _ret_cache[key] = res
     return res
@@ -78,6 +90,129 @@ def return_shapes(prog, fn, stack=()):
 
 def clear_cache():
     _ret_cache.clear()
+    _infeasible_cache.clear()
+
+
+_infeasible_cache = {}
+
+
+def _param_of(body, place):
+    """the parameter a place is a plain copy / borrow of, else None"""
+    ks = set()
+    for o in origins(body, place, transparent=()):
+        if o.kind == "param" and not o.fields:
+            ks.add(o.data)
+        else:
+            return None
+    return next(iter(ks)) if len(ks) == 1 else None
+
+
+def _variant_index(prog, body, ty, name):
+    ty = ty.replace("&", "").strip()
+    a = prog.adts_by_target[body.target].get(ty) or prog.adt(ty)
+    if a is None:
+        return None
+    for v in a.get("variants") or []:
+        if v["name"] == name:
+            return str(v["idx"])
+    return None
+
+
+def infeasible_blocks(prog, body, penv, stack=()):
+    """blocks no path reaches when the parameters hold the constants of penv (decided by the branch conditions on them)"""
+    if not penv:
+        return frozenset()
+    key = (body.id, tuple(sorted(penv.items(), key=str)))
+    if key in _infeasible_cache:
+        return _infeasible_cache[key]
+    _infeasible_cache[key] = frozenset()
+    bad = set()
+    for bb in body.reachable:
+        for c in conditions(body, bb):
+            if c.is_discr:
+                k = _param_of(body, c.place)
+                v = penv.get(k) if k is not None else None
+                if isinstance(v, tuple) and v[0] == "variant":
+                    idx = _variant_index(prog, body, body.local_ty(k), v[1])
+                    if idx is None:
+                        continue
+                    holds = (idx in c.values) != c.negated
+                    if not holds:
+                        bad.add(bb)
+                        break
+            else:
+                if not (c.is_true() or c.is_false()):
+                    continue
+                k = _param_of(body, c.place)
+                if k is not None and penv.get(k) in (True, False):
+                    val = {penv[k]}
+                else:
+                    # `param == Enum::Variant` computed into a bool
+                    val = set()
+                    for o in origins(body, c.place, transparent=()):
+                        if o.kind == "call":
+                            e = _enum_comparison(prog, body, o, penv)
+                            val.add(e if e is not None else "?")
+                        else:
+                            val.add("?")
+                if val == {True} and c.is_false() or val == {False} and c.is_true():
+                    bad.add(bb)
+                    break
+    res = frozenset(bad)
+    _infeasible_cache[key] = res
+    return res
+
+
+def _enum_comparison(prog, body, o, penv):
+    """shape of `a == b` / `a != b` when one side is an enum parameter and the other a constant variant"""
+    d = callee_decl(o.data)
+    if d not in ("core::cmp::PartialEq::eq", "core::cmp::PartialEq::ne"):
+        return None
+    args = o.site.node["args"]
+    if len(args) != 2:
+        return None
+    k = name = None
+    for a in args:
+        kk = _param_of(body, a)
+        if kk is not None:
+            k = kk
+            continue
+        for oo in origins(body, a, transparent=()):
+            if oo.kind == "const" and oo.data.get("variant"):
+                name = oo.data["variant"]
+            elif oo.kind == "agg" and oo.data.get("kind") == "adt" and oo.data.get("variant") and not oo.site.node["rv"]["ops"]:
+                name = oo.data["variant"]
+    if k is None or name is None:
+        return None
+    v = (penv or {}).get(k)
+    if isinstance(v, tuple) and v[0] == "variant":
+        r = v[1] == name
+        return r if d.endswith("::eq") else (not r)
+    return ("eq" if d.endswith("::eq") else "ne", k, name)
+
+
+def _const_arg(prog, body, x, penv):
+    """True / False / ('variant', name) when the argument is a constant (or a parameter fixed by penv), else None"""
+    kk = op_const(x)
+    if kk is not None:
+        if "bool" in kk:
+            return kk["bool"]
+        if kk.get("variant"):
+            return ("variant", kk["variant"])
+        return None
+    vals = set()
+    for oo in origins(body, x, transparent=()):
+        if oo.kind == "const" and "bool" in oo.data:
+            vals.add(oo.data["bool"])
+        elif oo.kind == "const" and oo.data.get("variant"):
+            vals.add(("variant", oo.data["variant"]))
+        elif oo.kind == "agg" and oo.data.get("kind") == "adt" and oo.data.get("variant") and not oo.site.node["rv"]["ops"] and not (oo.data.get("path") or "").startswith("core::"):
+            vals.add(("variant", oo.data["variant"]))
+        elif oo.kind == "param" and not oo.fields and (penv or {}).get(oo.data) is not None:
+            vals.add(penv[oo.data])
+        else:
+            return None
+    return next(iter(vals)) if len(vals) == 1 else None
 
 
 def _ty_kind(ty):
@@ -91,7 +226,7 @@ def _ty_kind(ty):
     return "other"
 
 
-def shapes_of(prog, body, op, site=None, stack=(), depth=0):
+def shapes_of(prog, body, op, site=None, stack=(), depth=0, penv=None):
     k = op_const(op)
     if k is not None:
         if "bool" in k:
@@ -101,14 +236,19 @@ def shapes_of(prog, body, op, site=None, stack=(), depth=0):
         return {"?"}
     out = set()
     p = op_place(op)
-    os_ = origins(body, op, transparent=("core::clone::Clone::clone",))
+    flt = None
+    if penv:
+        dead = infeasible_blocks(prog, body, penv, stack)
+        if dead:
+            flt = lambda l, ds: [d for d in ds if d.bb not in dead] or ds
+    os_ = origins(body, op, transparent=("core::clone::Clone::clone",), def_filter=flt)
     for o in os_:
         if o.kind == "const":
             out.add(o.data["bool"] if "bool" in o.data else "v")
         elif o.kind == "param":
             ty = body.local_ty(o.data)
             if ty == "bool" and not o.fields:
-                out.add(("p", o.data))
+                out.add(penv[o.data] if penv and penv.get(o.data) in (True, False) else ("p", o.data))
             else:
                 out.add("v")
         elif o.kind == "agg":
@@ -125,11 +265,11 @@ def shapes_of(prog, body, op, site=None, stack=(), depth=0):
                 for bl, members in common.items():
                     if len(members) >= 2 and not (1 <= bl <= body.n_args):
                         joint = (bl, members)
-                comps = [shapes_of(prog, body, x, o.site, stack, depth + 1) for x in ops]
+                comps = [shapes_of(prog, body, x, o.site, stack, depth + 1, penv) for x in ops]
                 combos = [()]
                 if joint is not None:
                     bl, members = joint
-                    whole = shapes_of(prog, body, {"c": {"l": bl, "p": []}}, o.site, stack, depth + 1)
+                    whole = shapes_of(prog, body, {"c": {"l": bl, "p": []}}, o.site, stack, depth + 1, penv)
                     combos = []
                     for w in whole:
                         base = [None] * len(ops)
@@ -150,15 +290,19 @@ def shapes_of(prog, body, op, site=None, stack=(), depth=0):
                 if a["variant"] == "None":
                     out.add(project("None", o.fields) if o.fields else "None")
                 else:
-                    for x in shapes_of(prog, body, ops[0], o.site, stack, depth + 1):
+                    for x in shapes_of(prog, body, ops[0], o.site, stack, depth + 1, penv):
                         out.add(project(("Some", x), o.fields))
             else:
                 out.add("v")
         elif o.kind == "unop" and o.data["op"] == "Not":
-            for x in shapes_of(prog, body, o.data["ops"][0], o.site, stack, depth + 1):
+            for x in shapes_of(prog, body, o.data["ops"][0], o.site, stack, depth + 1, penv):
                 out.add(neg(x))
         elif o.kind == "call":
             c = o.data
+            ec = _enum_comparison(prog, body, o, penv)
+            if ec is not None and not o.fields:
+                out.add(ec)
+                continue
             tgt = prog.body_for_callee(c, body) if c.get("decl") != "<indirect>" else None
             if tgt is None and c.get("virtual") and c.get("trait") in prog.traits and c.get("trait", "").startswith("solvers::specs::"):
                 # dynamic dispatch on a solver trait: any implementation (summaries of all impls)
@@ -178,20 +322,22 @@ def shapes_of(prog, body, op, site=None, stack=(), depth=0):
                     for oo in origins(body, args[1], transparent=()):
                         if oo.kind == "agg" and oo.data["kind"] == "tuple":
                             for i, x in enumerate(oo.site.node["rv"]["ops"]):
-                                kk = op_const(x)
-                                if kk is not None and "bool" in kk:
-                                    env[i + 2] = kk["bool"]
+                                kv = _const_arg(prog, body, x, penv)
+                                if kv is not None:
+                                    env[i + 2] = kv
                 else:
                     for i, x in enumerate(args):
-                        kk = op_const(x)
-                        if kk is not None and "bool" in kk:
-                            env[i + 1] = kk["bool"]
+                        kv = _const_arg(prog, body, x, penv)
+                        if kv is not None:
+                            env[i + 1] = kv
+                        elif op_place(x) is None:
+                            continue
                         else:
                             # a bool parameter of the caller forwarded unchanged
-                            xs = shapes_of(prog, body, x, o.site, stack, depth + 1) if body.local_ty(op_place(x)["l"]) == "bool" and not op_place(x)["p"] else set() if op_place(x) is not None else set()
+                            xs = shapes_of(prog, body, x, o.site, stack, depth + 1, penv) if body.local_ty(op_place(x)["l"]) == "bool" and not op_place(x)["p"] else set()
                             if len(xs) == 1:
                                 env[i + 1] = next(iter(xs))
-                rs = {subst(s, env) for s in return_shapes(prog, tgt, stack)}
+                rs = {subst(s, env) for s in return_shapes(prog, tgt, stack, env)}
                 rs = _restrict(prog, body, o, rs, site)
                 for s in rs:
                     out.add(project(s, o.fields))
@@ -199,8 +345,45 @@ def shapes_of(prog, body, op, site=None, stack=(), depth=0):
                 d = callee_decl(c)
                 if d in ("core::option::Option::is_some", "core::option::Option::is_none", "core::slice::contains", "core::iter::traits::iterator::Iterator::any", "core::iter::traits::iterator::Iterator::all", "core::cmp::PartialEq::eq", "core::cmp::PartialEq::ne", "alloc::vec::Vec::is_empty"):
                     out.add("?")
+                elif d in ("core::option::Option::unwrap_or", "core::option::Option::unwrap_or_else", "core::option::Option::unwrap_or_default"):
+                    a = o.site.node["args"]
+                    for x in shapes_of(prog, body, a[0], o.site, stack, depth + 1, penv):
+                        if isinstance(x, tuple) and x[0] == "Some":
+                            out.add(project(x[1], o.fields))
+                        elif x == "None" or x == "?" or x == "v":
+                            if d.endswith("unwrap_or") and len(a) == 2:
+                                for y in shapes_of(prog, body, a[1], o.site, stack, depth + 1, penv):
+                                    out.add(project(y, o.fields))
+                            elif d.endswith("unwrap_or_else"):
+                                got = False
+                                for fa in c.get("fn_args") or []:
+                                    cb = prog.by_target[body.target].get(fa) or prog.by_target["lib"].get(fa)
+                                    if cb is not None:
+                                        got = True
+                                        for y in return_shapes(prog, cb, stack + (body.id,)):
+                                            out.add(project(y, o.fields))
+                                if not got:
+                                    out.add("?")
+                            else:
+                                out.add("?")
+                            if x != "None":
+                                out.add("?")
+                elif d in ("core::iter::traits::iterator::Iterator::find_map", "core::iter::traits::iterator::Iterator::filter_map") and d.endswith("find_map"):
+                    out.add(project("None", o.fields) if o.fields else "None")
+                    got = False
+                    for fa in c.get("fn_args") or []:
+                        cb = prog.by_target[body.target].get(fa) or prog.by_target["lib"].get(fa)
+                        if cb is not None:
+                            got = True
+                            for y in return_shapes(prog, cb, stack + (body.id,)):
+                                if isinstance(y, tuple) and y[0] == "Some":
+                                    out.add(project(y, o.fields))
+                                elif y != "None":
+                                    out.add("?")
+                    if not got:
+                        out.add("?")
                 elif d == "core::option::Option::map":
-                    for x in shapes_of(prog, body, o.site.node["args"][0], o.site, stack, depth + 1):
+                    for x in shapes_of(prog, body, o.site.node["args"][0], o.site, stack, depth + 1, penv):
                         out.add(project(("Some", "v") if isinstance(x, tuple) and x[0] == "Some" else x, o.fields))
                 elif d in ("core::option::Option::take", "core::mem::replace", "core::mem::take"):
                     out.add("?")
